@@ -34,6 +34,10 @@ class Gen:
         tags = {k: r.choice(TAG_VALS) for k in r.sample(TAG_KEYS[:3], r.choice([0, 1, 1, 2, 3]))}
         if r.random() < 0.05:
             tags["bad"] = "1"
+        enc = (self.profile.get("storage_kwargs") or {}).get("encoding")
+        if enc and r.random() < 0.5:
+            # text outside ASCII (inside the configured encoding): a file written in another encoding than it is read in shows here
+            tags[r.choice(["a", "k"])] = r.choice(["Z\u00fcrich", "\u00e9", "\u00e5\u00ff"] if enc == "latin-1" else ["Z\u00fcrich", "\u65e5\u672c", "\u00e9"])
         fields = {k: r.choice(FIELD_VALS) for k in r.sample(FIELD_KEYS, r.choice([0, 1, 1, 2]))}
         tm = self.time() if t is None else t
         if untimed_ok and r.random() < 0.1:
